@@ -44,9 +44,23 @@ SAMPLE = [D.datetime(2020, 1, 15, 12), D.datetime(2020, 7, 15, 12), D.datetime(2
           D.datetime(1950, 6, 1), D.datetime(2037, 12, 31, 23)]
 
 
-def behaviour(z):
+def _dense():
     out = []
-    for w in SAMPLE:
+    for y in (2023, 2024):
+        for m, days in ((2, (28,)), (3, (1, 2, 9, 10, 11, 12, 13, 31)), (4, (1,)), (10, (26, 27, 28, 29, 30, 31)), (11, (1, 2, 3, 4, 5))):
+            for d in days:
+                for h in range(24):
+                    out.append(D.datetime(y, m, d, h, 30))
+        out += [D.datetime(y, 2, 28, 23, 30) + D.timedelta(hours=k) for k in range(1, 30)]       # 29 Feb / 1 Mar
+    return out
+
+
+DENSE = _dense()
+
+
+def behaviour(z, sample=None):
+    out = []
+    for w in (SAMPLE if sample is None else sample):
         for fold in (0, 1):
             dt = w.replace(tzinfo=z, fold=fold)
             try:
@@ -249,6 +263,26 @@ def zone_pool(tz):
             ('range2', tz.tzrange('EST', -18000, 'EDT', -14400, relativedelta(hours=+2, month=4, day=1, weekday=SU(+1)),
                                   relativedelta(hours=+1, month=10, day=31, weekday=SU(-1)))),
             ('range3', tz.tzrange('EST', -18000)), ('local', tz.tzlocal())]
+    # rule zones that differ in exactly one ingredient (rule form, day, time, name, offset): whichever of them the
+    # library calls equal must answer identically everywhere
+    for i, s_ in enumerate(('EST5EDT,J60/2,J300/2', 'EST5EDT,59/2,J300/2', 'EST5EDT,59/2,299/2', 'EST5EDT,J60/2,J300/3', 'EST5EDT,J61/2,J300/2',
+                            'EST5EDT4,J60/2,J300/2', 'EST5EDT,M3.2.0,M11.1.0', 'EST5EDT,M3.2.0/2,M11.1.0/3', 'EST5EDT,M3.2.1/2,M11.1.0/2',
+                            'EST5EDT,M3.3.0/2,M11.1.0/2', 'XST5EDT,M3.2.0/2,M11.1.0/2', 'EST5XDT,M3.2.0/2,M11.1.0/2', 'EST5EDT3,M3.2.0/2,M11.1.0/2',
+                            'EST6EDT,M3.2.0/2,M11.1.0/2', 'EST5EDT,M11.1.0/2,M3.2.0/2')):
+        try:
+            pool.append(('near-str%d:%s' % (i, s_), tz.tzstr(s_)))
+        except Exception:
+            pass
+    base = dict(hours=+2, month=3, day=1)
+    for i, (kw1, kw2) in enumerate(((dict(base, weekday=SU(+2)), dict(hours=+1, month=11, day=1, weekday=SU(+1))),
+                                    (dict(base, weekday=SU(+2), leapdays=1), dict(hours=+1, month=11, day=1, weekday=SU(+1))),
+                                    (dict(base, weekday=SU(+2)), dict(hours=+1, month=11, day=1, weekday=SU(+1), leapdays=-1)),
+                                    (dict(hours=+2, yearday=60), dict(hours=+1, yearday=300)),
+                                    (dict(hours=+2, nlyearday=60), dict(hours=+1, yearday=300)),
+                                    (dict(hours=+2, yearday=60), dict(hours=+1, nlyearday=300)),
+                                    (dict(base, weekday=SU(+2), minutes=1), dict(hours=+1, month=11, day=1, weekday=SU(+1))),
+                                    (dict(base, weekday=SU(+2)), dict(hours=+1, month=11, day=1, weekday=SU(+1), seconds=30)))):
+        pool.append(('near-range%d' % i, tz.tzrange('EST', -18000, 'EDT', -14400, relativedelta(**kw1), relativedelta(**kw2))))
     for n in ('America/New_York', 'Europe/London', 'Europe/Dublin', 'Etc/GMT+5', 'Etc/GMT-3', 'Etc/UTC', 'Etc/GMT+6'):
         if not os.path.exists('/usr/share/zoneinfo/' + n):
             continue
@@ -298,10 +332,16 @@ def equality_laws(ctx, tz):
             if ab:
                 ctx.count('equal_pairs')
                 ctx.distinct('equal|%s|%s' % (type(a).__name__, type(b).__name__))
-                oa = [x[0] for x in behaviour(a)]
-                ob = [x[0] for x in behaviour(b)]
+                dense = na.startswith('near-') or nb.startswith('near-')
+                oa = [x[0] for x in behaviour(a, DENSE if dense else None)]
+                ob = [x[0] for x in behaviour(b, DENSE if dense else None)]
+                if dense and na != nb:
+                    ctx.count('near_variant_pairs_called_equal')
                 if oa != ob:
-                    ctx.violation('equal-zones-different-offsets', {'a': na, 'b': nb}, '%r vs %r' % (oa[:4], ob[:4]))
+                    k = [i for i in range(len(oa)) if oa[i] != ob[i]][0]
+                    w = (DENSE if dense else SAMPLE)[k // 2]
+                    ctx.violation('equal-zones-different-offsets', {'a': na, 'b': nb},
+                                  'the zones compare equal but at wall time %s fold=%d report %r vs %r' % (w.isoformat(), k % 2, oa[k], ob[k]))
     for name, z in pool:
         ref = behaviour(z)
         forms = [('copy', copy.copy), ('deepcopy', copy.deepcopy)] + [('pickle-%d' % p, (lambda o, p=p: pickle.loads(pickle.dumps(o, p))))
@@ -498,6 +538,121 @@ def scheduled_clear(ctx, tz, policy, label, sigs):
         ctx.violation('identity-lost', case, 'a later request returned another object')
 
 
+def scheduled_drop(ctx, tz, kind, policy, label, sigs):
+    """a request for a key whose only live reference is dropped by another thread while the request is inside the
+    factory (the object is no longer in the strong cache, so it dies at that moment): the request must still
+    return a zone for the key - never an exception, never a dead or foreign object"""
+    import gc
+    if kind == 'tzoffset':
+        key = fresh_key(kind)
+        fill = [fresh_key(kind) for _ in range(10)]
+        req = lambda k: tz.tzoffset(*k)
+        lock_owner, lock_attr = tz.tzoffset, '_cache_lock'
+    else:
+        key = fresh_key('tzstr')
+        fill = [fresh_key('tzstr') for _ in range(10)]
+        req = lambda k: tz.tzstr(k[0], posix_offset=k[1])
+        lock_owner, lock_attr = tz.tzstr, '_TzStrFactory__cache_lock'
+    holder = [req(key)]
+    want = behaviour(holder[0])
+    pushed = [req(k) for k in fill]          # evicts `key` from the strong cache; the holder keeps it alive
+    del pushed
+    s = S.Sched(policy, factory_codes(tz), max_steps=60000)
+    real = getattr(lock_owner, lock_attr)
+    lock = S.ProxyLock(s, kind + '.lock')
+    setattr(lock_owner, lock_attr, lock)
+
+    def dropper():
+        holder.clear()
+        gc.collect()
+        return None
+    s.install()
+    try:
+        results, completed = s.run([lambda: req(key), dropper, lambda: req(key)], join_timeout=15)
+    finally:
+        s.uninstall()
+        setattr(lock_owner, lock_attr, real)
+    ctx.ev()
+    ctx.count('scheduled_runs_drop_' + kind)
+    sigs.add(('drop', kind, s.signature()))
+    ctx.distinct('sched|drop|%s|%s' % (kind, s.signature()))
+    case = {'scenario': 'reference-dropped-during-request', 'factory': kind, 'policy': label,
+            'schedule': [(a, b, str(c), d) for a, b, c, d in s.trace][:300]}
+    if not completed:
+        ctx.inconclusive_because('scheduler did not complete a drop run')
+        return
+    if s.deadlock:
+        ctx.violation('deadlock', case, repr(s.deadlock))
+        return
+    for i in (0, 2):
+        r = results.get('T%d' % i)
+        if r is None or r[0] != 'ok':
+            ctx.violation('request-raised-under-threads', case, 'T%d: %r' % (i, r))
+            return
+        try:
+            if behaviour(r[1]) != want:
+                ctx.violation('wrong-zone-under-threads', case, 'T%d got %r' % (i, r[1]))
+                return
+        except Exception as e:
+            ctx.violation('half-built-zone', case, 'T%d: %r' % (i, e))
+            return
+
+
+def scheduled_trim(ctx, tz, policy, label, sigs):
+    """gettz requests that make the strong cache overflow (size 1, several names) racing with cache_clear() /
+    set_cache_size(0): cache maintenance only affects retention - no request may raise, every result is the zone asked for"""
+    names = [n for n in ('Europe/Paris', 'Europe/Madrid', 'Asia/Seoul', 'America/Denver') if os.path.exists('/usr/share/zoneinfo/' + n)]
+    if len(names) < 3:
+        return
+    g = tz.gettz
+    g.cache_clear()
+    g.set_cache_size(1)
+    keep = g(names[0])
+    variant = COUNTER[0] % 2
+    COUNTER[0] += 1
+    codes = factory_codes(tz) + [type(g).cache_clear.__code__, type(g).set_cache_size.__code__]
+    s = S.Sched(policy, codes, max_steps=60000)
+    real = g._cache_lock
+    lock = S.ProxyLock(s, 'gettz.lock')
+    g._cache_lock = lock
+
+    def maint():
+        if variant:
+            g.cache_clear()
+        else:
+            g.set_cache_size(0)
+        return g(names[0])
+    s.install()
+    try:
+        results, completed = s.run([lambda: g(names[1]), maint, lambda: g(names[2]), lambda: g(names[1])], join_timeout=15)
+    finally:
+        s.uninstall()
+        g._cache_lock = real
+        g.set_cache_size(8)
+    ctx.ev()
+    ctx.count('scheduled_runs_gettz_trim')
+    sigs.add(('trim', s.signature()))
+    ctx.distinct('sched|gettz-trim|%d|%s' % (variant, s.signature()))
+    case = {'scenario': 'gettz-trim-vs-' + ('cache_clear' if variant else 'set_cache_size(0)'), 'policy': label,
+            'schedule': [(a, b, str(c), d) for a, b, c, d in s.trace][:300]}
+    if not completed:
+        ctx.inconclusive_because('scheduler did not complete a trim run')
+        return
+    if s.deadlock:
+        ctx.violation('deadlock', case, repr(s.deadlock))
+        return
+    want = [names[1], names[0], names[2], names[1]]
+    for i in range(4):
+        r = results.get('T%d' % i)
+        if r is None or r[0] != 'ok':
+            ctx.violation('request-raised-under-threads', case, 'T%d: %r' % (i, r))
+            return
+        if r[1] is None or not repr(r[1]).count(want[i]):
+            ctx.violation('wrong-zone-under-threads', case, 'T%d asked for %s and got %r' % (i, want[i], r[1]))
+            return
+    del keep
+
+
 def free_running(ctx, tz, rounds, nthreads):
     guards, unguard = locks.install_guards(locks.tz_factory_locks())
     sys.setswitchinterval(1e-6)
@@ -589,6 +744,18 @@ def run(ctx):
     for _ in range(60 if ctx.tier == 'quick' else 3000):
         scheduled_clear(ctx, tz, S.RandomPolicy(rng, rng.choice([.1, .3, .6])) if rng.random() < .5 else S.PCTPolicy(rng, 4, depth=rng.randint(1, 3), horizon=120),
                         'random', sigs)
+    for kind in ('tzoffset', 'tzstr'):
+        for k in range(1 + ctx.shard, 60, ctx.nshards):
+            for t in ('T0', 'T1', 'T2'):
+                scheduled_drop(ctx, tz, kind, S.PlanPolicy({k: t}), 'plan1', sigs)
+        for _ in range(20 if ctx.tier == 'quick' else 1500):
+            scheduled_drop(ctx, tz, kind, S.RandomPolicy(rng, rng.choice([.1, .3, .6])), 'random', sigs)
+    for k in range(1 + ctx.shard, 200, ctx.nshards):
+        for t in ('T0', 'T1', 'T2', 'T3'):
+            scheduled_trim(ctx, tz, S.PlanPolicy({k: t}), 'plan1', sigs)
+    for _ in range(40 if ctx.tier == 'quick' else 3000):
+        scheduled_trim(ctx, tz, S.RandomPolicy(rng, rng.choice([.1, .3, .6])) if rng.random() < .5 else S.PCTPolicy(rng, 4, depth=rng.randint(1, 3), horizon=160),
+                       'random', sigs)
     ctx.count('distinct_interleavings', len(sigs))
     free_running(ctx, tz, 60 if ctx.tier == 'quick' else 1500, rng.randint(4, 8))
     ctx.sample({'scenario': 'factory-race', 'distinct_interleavings_this_shard': len(sigs)})
@@ -599,7 +766,7 @@ def floors(agg, tier):
     c, out = agg['counters'], []
     for k, n in (('op_request', 5000), ('requests_with_live_object', 2000), ('op_fresh', 500), ('op_set_cache_size', 50), ('op_cache_clear', 30),
                  ('op_gc', 300), ('law_symmetric', 300), ('equal_pairs', 30), ('law_pickle', 60), ('law_copy', 15), ('law_deepcopy', 15),
-                 ('scheduled_runs_tzoffset', 300), ('scheduled_runs_tzstr', 200), ('scheduled_runs_gettz', 200), ('scheduled_runs_gettz_clear', 300), ('systematic_runs', 400),
+                 ('scheduled_runs_tzoffset', 300), ('scheduled_runs_tzstr', 200), ('scheduled_runs_gettz', 200), ('scheduled_runs_gettz_clear', 300), ('scheduled_runs_gettz_trim', 300), ('scheduled_runs_drop_tzoffset', 100), ('scheduled_runs_drop_tzstr', 100), ('systematic_runs', 400),
                  ('distinct_interleavings', 400), ('free_running_rounds', 200)):
         if c.get(k, 0) < n:
             out.append('%s only %d (< %d)' % (k, c.get(k, 0), n))
